@@ -403,6 +403,101 @@ def rule_dbit(rep: Report, repo: Repo) -> None:
               f'flipjump/interpreter/debugging/breakpoints.py:{cv.lineno}')
 
 
+def rule_screen_init(rep: Report, repo: Repo) -> None:
+    rep.rule('C19.SCREEN-INIT', 'what a device accepts at its edges, folded on the boundary values: packed data bytes are served for every '
+             'supported width of at least 16 bits and refused below; init_screen refuses exactly a zero width or a zero height and a bpp '
+             'other than 4 / 8, sizes the pixel buffer to width * height and the palette to palette_size; the "not initialised" test is '
+             'true exactly while a dimension is still 0; a fresh device starts uninitialised with an empty bit / command assembler', 5)
+    from ..pyfacts import eval_int_expr, raise_guards, AnalysisError as _AE
+    # packed-byte capability
+    from ..excflow import refusal_tests
+    rq = repo.func(DM, 'DeviceMemory._require_byte_capable_width')
+    gs = [(e_, r_, None) for r_, e_ in refusal_tests(rq)]
+    bad = []
+    if len(gs) != 1:
+        bad.append(f'{len(gs)} raising guards')
+    else:
+        for wv in (8, 15, 16, 17, 32, 64):
+            try:
+                got = bool(_truth(gs[0][0], {'self.memory_width': wv}))
+            except _AE as ex:
+                bad.append(str(ex))
+                break
+            if got != (wv < 16):
+                bad.append(f'w={wv}: refused={got}')
+    rep.check(not bad, 'C19.SCREEN-INIT', 'packed-bytes:width', bad[0] if bad else 'refused iff w < 16 (a byte at bits #w..#w+7 of the jump word needs w >= 16)',
+              f'{DM}:{rq.lineno} DeviceMemory._require_byte_capable_width')
+    ini = repo.func(SC, 'InMemoryScreen._init_screen')
+    gi = [e_ for r_, e_ in refusal_tests(ini)]
+    bad = []
+    if not gi:
+        bad.append('no refusal found')
+    for bpp in (0, 1, 2, 3, 4, 5, 7, 8, 9, 16):
+        for wd in (0, 1, 7):
+            for ht in (0, 1, 5):
+                env = {'bpp': bpp, 'width': wd, 'height': ht, 'palette_size': 3}
+                try:
+                    got = any(_truth(t, env) for t in gi)
+                except _AE as ex:
+                    bad.append(str(ex))
+                    break
+                if got != (bpp not in (4, 8) or wd == 0 or ht == 0):
+                    bad.append(f'{env}: refused={got}')
+    rep.check(not bad, 'C19.SCREEN-INIT', 'init_screen:refusals', bad[0] if bad else 'zero dimension / bpp outside {4, 8} refused, everything else accepted (90 cases)',
+              f'{SC}:{ini.lineno} InMemoryScreen._init_screen')
+    sizes = {}
+    for st in ini.body:
+        if isinstance(st, ast.Assign) and len(st.targets) == 1 and norm(st.targets[0]) in ('self.pixel_indices', 'self.palette') \
+                and isinstance(st.value, ast.BinOp) and isinstance(st.value.op, ast.Mult):
+            lst, cnt = (st.value.left, st.value.right) if isinstance(st.value.left, ast.List) else (st.value.right, st.value.left)
+            if isinstance(lst, ast.List) and len(lst.elts) == 1:
+                try:
+                    sizes[norm(st.targets[0])] = [eval_int_expr(cnt, {'width': 7, 'height': 5, 'palette_size': 11, 'self.width': 7, 'self.height': 5, 'self.palette_size': 11})]
+                except _AE:
+                    sizes[norm(st.targets[0])] = ['?']
+    rep.check(sizes == {'self.pixel_indices': [35], 'self.palette': [11]}, 'C19.SCREEN-INIT', 'init_screen:buffer-sizes', str(sizes),
+              f'{SC}:{ini.lineno} InMemoryScreen._init_screen', expected='width * height pixels, palette_size colours')
+    rq2 = repo.func(SC, 'InMemoryScreen._require_initialized_screen')
+    g2 = [(e_, r_, None) for r_, e_ in refusal_tests(rq2)]
+    bad = []
+    if len(g2) != 1:
+        bad.append(f'{len(g2)} guards')
+    else:
+        for a in (0, 3):
+            for b in (0, 2):
+                try:
+                    got = bool(_truth(g2[0][0], {'self.width': a, 'self.height': b}))
+                except _AE as ex:
+                    bad.append(str(ex))
+                    break
+                if got != (a == 0 or b == 0):
+                    bad.append(f'width={a} height={b}: refused={got}')
+    rep.check(not bad, 'C19.SCREEN-INIT', 'require-initialised', bad[0] if bad else 'refused iff a dimension is 0', f'{SC}:{rq2.lineno}')
+    # ... and a fresh device IS uninitialised: both dimensions start at 0, the bit assembler at (0, 0) with an empty command buffer
+    ctor = repo.func(SC, 'InMemoryScreen.__init__')
+    init_vals = {norm(st.targets[0] if isinstance(st, ast.Assign) else st.target): norm(st.value) for st in ctor.body
+                 if isinstance(st, (ast.Assign, ast.AnnAssign)) and st.value is not None}
+    want_init = {'self.width': '0', 'self.height': '0', 'self._current_byte': '0', 'self._bits_count': '0', 'self._command_buffer': '[]', 'self.frame_count': '0'}
+    got_init = {k: init_vals.get(k) for k in want_init}
+    rep.check(got_init == want_init, 'C19.SCREEN-INIT', 'fresh device', str({k: v for k, v in got_init.items() if want_init[k] != v}) or 'uninitialised and empty',
+              f'{SC}:{ctor.lineno} InMemoryScreen.__init__', expected=str(want_init))
+
+
+def _truth(e: ast.expr, env: Dict[str, int]) -> bool:
+    """fold a test that may use `x in (a, b)` / `x not in (a, b)` besides the integer operators"""
+    from ..pyfacts import eval_int_expr
+    if isinstance(e, ast.Compare) and len(e.ops) == 1 and isinstance(e.ops[0], (ast.In, ast.NotIn)) and isinstance(e.comparators[0], (ast.Tuple, ast.List, ast.Set)):
+        v = eval_int_expr(e.left, env)
+        inside = v in [eval_int_expr(x, env) for x in e.comparators[0].elts]
+        return inside if isinstance(e.ops[0], ast.In) else not inside
+    if isinstance(e, ast.BoolOp):
+        vals = [_truth(v, env) for v in e.values]
+        return all(vals) if isinstance(e.op, ast.And) else any(vals)
+    if isinstance(e, ast.UnaryOp) and isinstance(e.op, ast.Not):
+        return not _truth(e.operand, env)
+    return bool(eval_int_expr(e, env))
+
+
 def check(rep: Report, repo: Optional[Repo] = None) -> None:
     repo = repo or Repo()
     cu = CUnit(repo)
@@ -415,11 +510,12 @@ def check(rep: Report, repo: Optional[Repo] = None) -> None:
     rule_screen_reject(rep, repo)
     rule_pixel_mask(rep, repo)
     rule_dbit(rep, repo)
+    rule_screen_init(rep, repo)
     rep.not_decided.append('equality of the presented frames across engines for all programs (value-level)')
 
 
 MANIFEST = dict(
-    technique='adapter/route sibling agreement; documentation-vs-length-vs-decoder table agreement; guard-before-index; value-flow of pixel stores (bpp mask)',
+    technique='boundary-exact device refusals and buffer sizes; adapter/route sibling agreement; documentation-vs-length-vs-decoder table agreement; guard-before-index; value-flow of pixel stores (bpp mask)',
     level_text='Every store into the screen pixel buffer is masked to bpp bits (followed through locals, comprehensions, private helpers). Static, structural: the two memory adapters mask and default identically, every engine attaches its adapter before its '
                'loop, the native get/set API routes by the same predicate as the run loop (C07.ROUTE), the screen command layouts '
                'parsed from the documentation equal the length table and the decoder\'s field tiling, all rejections are device errors '
